@@ -308,6 +308,85 @@ theorem fold_elements_partition (set : LabeledData ι κ) (k : Nat) (assign : Li
   · show List.zip (splitBySizes _ sizes).flatten (splitBySizes _ sizes).flatten = ordered
     rw [splitBySizes_flatten _ _ hs1, splitBySizes_flatten _ _ hs2, zip_map_fst_snd]
 
+/-! ## E. elements of the folds -/
+variable {ε : Type}
+
+/-- the elements of an indexed subset: the listed batches, in the listed order -/
+theorem indexedSubset_flat (d d' : Data ε) (idx : List Nat) (h : d.indexedSubset idx = .ok d') :
+    d'.flat = idx.flatMap (fun i => d.batches.getD i []) ∧ ∀ i ∈ idx, i < d.numberOfBatches := by
+  have hb := (C03.indexedSubset_batches d d' idx h).1
+  simp only [Data.flat]
+  generalize d'.batches = bs at hb
+  clear h
+  induction idx generalizing bs with
+  | nil => simp at hb; simp [hb]
+  | cons i idx ih =>
+    cases bs with
+    | nil => simp at hb
+    | cons b bs =>
+      simp only [List.map_cons, List.cons.injEq] at hb
+      obtain ⟨hi, hrest⟩ := hb
+      obtain ⟨h1, h2⟩ := ih bs hrest
+      have hlt : i < d.batches.length := by
+        rcases Nat.lt_or_ge i d.batches.length with hlt | hge
+        · exact hlt
+        · rw [List.getElem?_eq_none hge] at hi; simp at hi
+      refine ⟨?_, ?_⟩
+      · simp only [List.flatten_cons, List.flatMap_cons, h1]
+        congr 1
+        rw [List.getD_eq_getElem?_getD, ← hi]; rfl
+      · intro j hj
+        simp only [List.mem_cons] at hj
+        rcases hj with rfl | hj
+        · exact hlt
+        · exact h2 j hj
+
+theorem flatMap_range_getD (l : List (List ε)) : (List.range l.length).flatMap (fun i => l.getD i []) = l.flatten := by
+  have : (List.range l.length).map (fun i => l.getD i []) = l := by
+    apply List.ext_getElem?
+    intro i
+    by_cases hi : i < l.length
+    · simp [hi, List.getD_eq_getElem?_getD]
+    · simp [hi]
+  rw [List.flatMap_def, this]
+
+/-- **validation ∪ training = everything** at the element level: for a duplicate-free validation batch set
+the elements of the validation part and of the training part (its complement) together are a permutation of
+the elements of the reorganised dataset — nothing lost, nothing duplicated -/
+theorem validation_training_elements (d v t : Data ε) (idx : List Nat) (hnd : idx.Nodup)
+    (hv : d.indexedSubset idx = .ok v) (ht : d.indexedSubset (Data.complement idx d.numberOfBatches) = .ok t) :
+    (v.flat ++ t.flat).Perm d.flat := by
+  obtain ⟨hvf, hlt⟩ := indexedSubset_flat d v idx hv
+  obtain ⟨htf, _⟩ := indexedSubset_flat d t _ ht
+  rw [hvf, htf, ← List.flatMap_append]
+  have hp := validation_training_partition idx d.numberOfBatches hnd hlt
+  have := (hp.map (fun i => d.batches.getD i [])).flatten
+  simp only [← List.flatMap_def] at this
+  refine this.trans ?_
+  rw [Data.numberOfBatches, flatMap_range_getD]
+  exact List.Perm.refl _
+
+/-- **validation parts partition the data** at the element level: the validation parts of folds built from
+the starts of `batchPartitioning`, concatenated in fold order, are exactly the element sequence of the
+reorganised dataset — each element in exactly one validation part -/
+theorem validation_parts_concat (d : Data ε) (counts : List Nat) (hnb : d.numberOfBatches = counts.sum)
+    (vs : List (Data ε)) (hvs : (foldRanges counts 0).mapM d.indexedSubset = .ok vs) :
+    vs.flatMap Data.flat = d.flat := by
+  have hcover := (folds_disjoint_cover counts).1
+  have key : ∀ (folds : List (List Nat)) (vs : List (Data ε)), folds.mapM d.indexedSubset = .ok vs →
+      vs.flatMap Data.flat = folds.flatten.flatMap (fun i => d.batches.getD i []) := by
+    intro folds
+    induction folds with
+    | nil => intro vs h; simp [List.mapM_nil, pure, Except.pure] at h; subst h; simp
+    | cons f folds ih =>
+      intro vs h
+      simp only [List.mapM_cons, bind_ok, pure_ok] at h
+      obtain ⟨v, hv, vs', hvs', rfl⟩ := h
+      simp only [List.flatMap_cons, List.flatten_cons, List.flatMap_append, ih vs' hvs',
+        (indexedSubset_flat d v f hv).1]
+  rw [key _ _ hvs, hcover, ← hnb, Data.numberOfBatches, flatMap_range_getD]
+  rfl
+
 /-! ## non-vacuity -/
 example : batchPartitioning [3, 5] [] [] 2 = some (5, [0, 2], [2, 1, 2, 2, 1]) := by decide
 example : foldRanges [2, 3] 0 = [[0, 1], [2, 3, 4]] := by decide
